@@ -28,6 +28,7 @@ var c15Alphabet = []c15Group{
 	{"unknown-action", "bad", 1}, {"delete", "bad", 1}, {"update", "bad", 2},
 	{"no-index-name", "either", 2},
 	{"bad-index-name", "either", 2}, // a name the index-name rules reject (path separator)
+	{"ts-only-doc", "either", 2},    // a document with no field besides its timestamp, into an index of its own
 	{"index-no-doc", "bad", 1},      // only meaningful as the last group
 }
 
@@ -73,6 +74,8 @@ func c15Build(j *c15Job, hist string, ia, ib string) (body string, docIDs []stri
 			sb.WriteString(`{"update":{"_index":"` + ia + `","_id":"1"}}` + "\n" + `{"doc":` + doc + `}` + "\n")
 		case "no-index-name":
 			sb.WriteString(`{"index":{}}` + "\n" + doc + "\n")
+		case "ts-only-doc":
+			sb.WriteString(`{"index":{"_index":"` + ia + `t"}}` + "\n" + fmt.Sprintf(`{"timestamp":%d}`, T0+int64(k)) + "\n")
 		case "bad-index-name":
 			sb.WriteString(`{"index":{"_index":"` + ia + `/x"}}` + "\n" + doc + "\n")
 		case "index-no-doc":
@@ -149,6 +152,7 @@ func c15Run(w *kernel.Worker, j *c15Job, rep *kernel.Report) (*c15Result, error)
 	rep.Eval(1)
 	defer func() {
 		_ = delIndex(w, 0, ia)
+		_ = delIndex(w, 0, ia+"t")
 		_ = delIndex(w, 0, ib)
 		if storeFull {
 			_ = delIndex(w, 0, fmt.Sprintf("c15fill%d-*", n))
@@ -161,6 +165,20 @@ func c15Run(w *kernel.Worker, j *c15Job, rep *kernel.Report) (*c15Result, error)
 	for _, rec := range r.Records {
 		id, _ := rec["id"].(string)
 		stored[id]++
+	}
+	// documents without fields cannot carry the marker: they go to an index of their own and are told apart by their timestamp
+	for k, kind := range j.Kinds {
+		if kind == "ts-only-doc" {
+			r2, err := runQuery(w, Q{Index: ia + "t", Text: "*", Start: T0 - 1, End: T0 + 1000, Size: 1000})
+			if err != nil {
+				return died(err)
+			}
+			for _, rec := range r2.Records {
+				if ts, ok := ObsInt(rec["timestamp"]); ok && ts == T0+int64(k) {
+					stored[fmt.Sprintf("d%d", k)]++
+				}
+			}
+		}
 	}
 	// (1) one item per action, in request order
 	if len(br.Resp.Items) != len(j.Kinds) {
@@ -288,7 +306,7 @@ func c15Enumerate(tier string, emit func(c15Job)) {
 
 func C15() int {
 	rep := kernel.NewReport("C15", "exploration")
-	rep.Rule = "all bulk bodies of ≤ depth action groups over a 13-kind alphabet (valid index/create on two indexes, a rejected index name, invalid and truncated " +
+	rep.Rule = "all bulk bodies of ≤ depth action groups over a 14-kind alphabet (valid index/create on two indexes, a rejected index name, a document with no field besides its timestamp, invalid and truncated " +
 		"documents, document at and just under the record size limit, unknown action, delete, update, missing _index, index without " +
 		"document line as last group) × trailing newline present/absent; executed through HandleBulkBody, flushed, searched by a per-history " +
 		"marker. Splunk HEC bodies (a series of JSON objects, acknowledged as a whole): all series of ≤ depth pieces over {event for index a, event for index b, stray }, stray ], truncated " +
